@@ -339,13 +339,13 @@ func (w *world) checkCall(c *call, s *seen, stateTag string) {
 				run.Violation("result-of-another-call", keyTail, w.witness(c, s, map[string]any{"decoded": v}))
 			}
 			run.Observe("results_matched", 1)
+		} else if re, ok := rueidis.IsRedisErr(err); ok && re.IsNoScript() && !strings.Contains(err.Error(), "reported by the script itself") {
+			run.Observe("noscript_results", 1) // ExecMulti after a flush between LOAD and EVALSHA: allowed
 		} else if c.errArg != "" {
 			if !strings.Contains(err.Error(), c.uid) {
 				run.Violation("result-of-another-call", keyTail, w.witness(c, s, nil))
 			}
 			run.Observe("script_errors_returned", 1)
-		} else if re, ok := rueidis.IsRedisErr(err); ok && re.IsNoScript() {
-			run.Observe("noscript_results", 1) // ExecMulti after a flush between LOAD and EVALSHA: allowed
 		} else if !strings.Contains(err.Error(), "injected") {
 			run.Observe("other_error_results", 1)
 		}
@@ -496,10 +496,12 @@ func (w *world) checkLoads(log []fakeredis.Event) {
 	if !w.v.load {
 		return
 	}
-	known := false // a SCRIPT LOAD of this script has succeeded on behalf of the client
+	known := ""          // how the client could have learned the SHA: a SCRIPT LOAD of this script succeeded in that kind of step
+	var hist []string // per step: kind and the SCRIPT LOAD outcomes seen in it
 	for _, st := range w.steps {
 		isExec := st.kind == "exec" || st.kind == "concurrent"
-		loadsInExec, after := 0, 0
+		loadsInExec, after, ok, failed := 0, 0, 0, 0
+		knownBefore := known
 		for _, e := range log[st.from:st.to] {
 			if e.Conn == 0 || len(e.Argv) < 3 || !strings.EqualFold(e.Argv[0], "SCRIPT") || !strings.EqualFold(e.Argv[1], "LOAD") || e.Argv[2] != w.src {
 				continue
@@ -508,23 +510,37 @@ func (w *world) checkLoads(log []fakeredis.Event) {
 			case "recv":
 				if isExec {
 					loadsInExec++
-					if known {
+					if known != "" {
 						after++
 					}
 				}
 				w.run.Observe("script_load_cmds", 1)
 			case "reply":
 				if e.Reply.T == '$' && !e.Reply.Null2 {
-					known = true
+					ok++
+					if isExec {
+						known = "Exec"
+					}
 				} else {
+					failed++
 					w.run.Observe("script_load_failures_seen", 1)
 				}
 			}
 		}
+		if !isExec && ok > 0 && known == "" {
+			// ExecMulti fans SCRIPT LOAD out to every node
+			if failed == 0 {
+				known = "ExecMulti"
+			} else {
+				known = "ExecMulti-with-a-failed-node"
+			}
+		}
+		hist = append(hist, fmt.Sprintf("%s: loads ok=%d failed=%d", st.kind, ok, failed))
 		if isExec {
-			w.run.Case(fmt.Sprintf("loadsha1|%s|%s|known-before=%v|loads=%d", w.v.name, st.kind, known, loadsInExec), loadsInExec > 0 || known)
+			w.run.Case(fmt.Sprintf("loadsha1|%s|%s|known-before=%v|loads=%d", w.v.name, st.kind, knownBefore, loadsInExec), loadsInExec > 0 || knownBefore != "")
 			if after > 0 {
-				w.run.Violation("script-load-after-success", w.v.name+"/"+st.kind, map[string]any{"case": w.id, "constructor": w.v.name, "step": st.kind, "script_load_after_first_success": after})
+				w.run.Violation("script-load-after-success", w.v.name+"/"+st.kind+"/sha-learned-by="+knownBefore, map[string]any{"case": w.id, "constructor": w.v.name, "cluster": w.cluster, "step": st.kind,
+					"script_loads_sent_by_this_step_after_a_success": after, "first_success_was_in": knownBefore, "steps_so_far": append([]string{}, hist...)})
 			}
 			if loadsInExec == 0 {
 				w.run.Observe("exec_steps_without_script_load", 1)
